@@ -369,7 +369,9 @@ def model_env(model, vars_):
     env = {}
     for name, v in vars_.items():
         mv = model.eval(v, model_completion=True)
-        if z3.is_rational_value(mv):
+        if z3.is_int_value(mv):
+            env[name] = Fraction(mv.as_long())
+        elif z3.is_rational_value(mv):
             env[name] = Fraction(mv.numerator_as_long(), mv.denominator_as_long())
         elif z3.is_algebraic_value(mv):
             a = mv.approx(30)
